@@ -803,7 +803,21 @@ func c10r9(r *R) {
 						return
 					}
 					n++
-					key := funcName(fn) + "|div by " + c.Expr(x.Y)
+					// a conversion that does not drop bits is zero exactly when its operand is
+					dv := x.Y
+					for {
+						cv, ok := dv.(*ssa.Convert)
+						if !ok {
+							break
+						}
+						db, _, ok1 := intInfo(cv.Type())
+						sb, _, ok2 := intInfo(cv.X.Type())
+						if !ok1 || !ok2 || db < sb {
+							break
+						}
+						dv = cv.X
+					}
+					key := funcName(fn) + "|div by " + c.Expr(dv)
 					o := r.Ob("C10.R9", "implicit:"+key).AtI(i)
 					if why, ok := reviewedImplicit[key]; ok {
 						o.OK("reviewed: %s", why)
@@ -811,11 +825,11 @@ func c10r9(r *R) {
 					}
 					nz := false
 					for _, g := range c.guardStrs(i.Block()) {
-						if g == canonStr("-"+eqs("0", c.Expr(x.Y))) || g == "+(0 < "+c.Expr(x.Y)+")" || g == "+(0 != "+c.Expr(x.Y)+")" {
+						if g == canonStr("-"+eqs("0", c.Expr(dv))) || g == "+(0 < "+c.Expr(dv)+")" || g == "+(0 != "+c.Expr(dv)+")" {
 							nz = true
 						}
 					}
-					o.Check(nz, "integer division by %s in %s on a goroutine without a recover frame is not guarded by a non-zero test", c.Expr(x.Y), funcName(fn))
+					o.Check(nz, "integer division by %s in %s on a goroutine without a recover frame is not guarded by a non-zero test", c.Expr(dv), funcName(fn))
 				}
 			}
 		})
